@@ -386,6 +386,23 @@ impl TransportVisitor for V {
                 }
                 co.borrow_mut().responder = cosim::honest_responder(kind);
                 op!("pcm_xfer", s.pcm_xfer(0, &[1, 2, 3, 4, 5, 6, 7, 8, 9]));
+                // A transfer of several periods of which the device fails the first and accepts
+                // the others: whatever the call returns, nothing it shared stays shared.
+                {
+                    let first = std::rc::Rc::new(std::cell::Cell::new(true));
+                    let f2 = first.clone();
+                    co.borrow_mut().responder = Box::new(move |q, chain, req| {
+                        let mut data = cosim::honest_response(kind, q, req, chain.writable_len());
+                        if q == 2 && f2.replace(false) && data.len() >= 4 {
+                            data[0..4].copy_from_slice(&0x8003u32.to_le_bytes());
+                        }
+                        let n = data.len() as u32;
+                        cosim::Action::Complete(data, n)
+                    });
+                    op!("pcm_xfer(first period fails)", s.pcm_xfer(0, &[1, 2, 3, 4, 5, 6, 7, 8, 9, 10, 11, 12, 13]));
+                    co.borrow_mut().responder = cosim::honest_responder(kind);
+                    op!("pcm_xfer(after a failed one)", s.pcm_xfer(0, &[1, 2, 3, 4, 5]));
+                }
                 fill(1, &[0, 0x11, 0, 0, 1, 0, 0, 0]);
                 op!("latest_notification", s.latest_notification());
                 op!("pcm_stop", s.pcm_stop(0));
